@@ -226,6 +226,12 @@ def _exp10(x):
             tp = _UF["exp10"](p)
             ax.append((p < x) == (tp < t))
             ax.append((p == x) == (tp == t))
+        # arithmetic progressions of exponents give geometric progressions of values: 10^p * 10^x = (10^q)^2 if p + x = 2q
+        for (pp,) in prev:
+            for (qq,) in prev:
+                tp, tq = _UF["exp10"](pp), _UF["exp10"](qq)
+                ax.append(z3.Implies(pp + x == 2 * qq, tp * t == tq * tq))
+                ax.append(z3.Implies(pp + qq == 2 * x, tp * tq == t * t))
         # inverse of log10 on the terms seen so far
         _, seen = _registry()
         for (q,) in seen.get("log10", []):
